@@ -128,19 +128,20 @@ def mut_tokens(m):
 
 # generators of inputs that expose LATENT defects of /repo (no library code calls the mutators this way); switched on by the
 # environment variable or automatically once known_findings.json carries an entry matching the key (set in main)
-LATENT = {"setinit": False, "setshr": False}
-LATENT_KEYS = {"setinit": "latent:setinit-on-permuted-object", "setshr": "latent:setshrinking-on-after-off"}
+LATENT = {"setinit": False, "setshr": False, "scale": False}
+LATENT_KEYS = {"setinit": "latent:setinit-on-permuted-object", "setshr": "latent:setshrinking-on-after-off",
+               "scale": "latent:scale-different-factors-on-shrunk-object"}
 
 def gen_long(rng, rid, big=False):
     """long run: hundreds of overlapping points, Gaussian kernel, C in {10,100}, eps 1e-3 -> thousands of iterations, several
     periodic shrink events and (usually) the one-time un-shrink inside shrink(); recorded sparsely (tag LRUN)"""
-    n = rng.randint(120, 420 if big else 260)
-    kind = "svm" if rng.random() < 0.85 else "box"
+    n = rng.randint(120, 450 if big else 300)
+    kind = "svm" if rng.random() < 0.9 else "box"
     sep = rng.choice([0.5, 0.7, 0.7, 1.0])
     y = [i % 2 for i in range(n)]
     if rng.random() < 0.3: rng.shuffle(y)
     x = [[rng.gauss(0, 1) + (sep if y[i] else -sep), rng.gauss(0, 1)] for i in range(n)]
-    C = rng.choice([10.0, 100.0, 100.0, 100.0]) if kind == "svm" else rng.choice([10.0, 10.0, 100.0])
+    C = rng.choice([10.0, 100.0, 100.0, 100.0, 100.0, 100.0]) if kind == "svm" else rng.choice([10.0, 10.0, 100.0])
     return {"tag": "LRUN", "id": rid, "kind": kind, "sel": rng.choice(SVM_SEL if kind == "svm" else ["maxgain", "maxgain", "ws2"]), "shrink": 1,
             "matrix": rng.choice(["pd", "cd", "cd", "cf", "pdg"]), "cachesize": rng.choice([100000000, 100000000, 40 * n]), "kernel": "rbf",
             "gamma": rng.choice([0.5, 1.0, 1.0, 2.0]), "Cneg": C, "Cpos": C * rng.choice([1, 1, 1, 0.5]), "eps": 1e-3,
@@ -189,9 +190,12 @@ def gen_hist(rng, rid, big=False):
             muts.append(("I", feasible_alpha(rng, c)))
         elif r < 0.75 and scal_ok:
             f, v = rng.choice([(2.0, 2.0), (0.5, 0.5), (4.0, 4.0), (2.0, 1.0), (4.0, 1.0), (2.0, 0.5), (1.0, 0.5), (1.0, 1.0)])
+            # different factors: the code resets the edge gradient to the linear term and leaves m_active alone, which is only right
+            # when nothing is shrunk (a solve that stops at the iteration limit leaves the problem shrunk) -> unshrink() first
+            if f != v and not LATENT["scale"]: muts.append(("U",))
             muts.append(("S", f, v)); c["_scaled"] = True
         elif r < 0.82: muts.append(("A", rng.randrange(n)))
-        elif r < 0.9: muts.append(("X", rng.randrange(n), rng.randrange(n)))
+        elif r < 0.9: muts += [("U",), ("X", rng.randrange(n), rng.randrange(n))]      # flipCoordinates needs both positions active
         elif r < 0.95: muts.append(("U",))
         else: muts.append(("T", rng.choice([1, 1, 0]) if c["shrink"] else 0))
     c.pop("_scaled", None)
@@ -544,10 +548,12 @@ def monitor(c, run, K, stop_first=True, stats=None):
                             if not kv <= c["eps"] + 2 * tol:
                                 msgs.append(("end-kkt", "solver reports accuracy %r < eps but the KKT violation with the true gradient lin - K alpha is %r" % (e[3], kv)))
             prevobj = obj
-        if msgs and msgs[0][0] in ("grad", "gedge", "fval", "end-kkt"):
+        if msgs and msgs[0][0] in ("grad", "gedge", "fval", "end-kkt", "shrunk-free"):
             # known-latent shapes get their own stable keys (see LATENT_KEYS)
             if name == "setinit" and prev is not None and prev.perm != list(range(n)):
                 msgs = [(LATENT_KEYS["setinit"], "setInitialSolution(alpha) on an object whose variables are permuted (%s): %s" % (prev.perm[:8], msgs[0][1]))]
+            elif name == "scale" and prev is not None and prev.active < n and args[0] != args[1]:
+                msgs = [(LATENT_KEYS["scale"], "scaleBoxConstraints(f, v) with f != v on an object with %d shrunk variables: %s" % (n - prev.active, msgs[0][1]))]
             elif toggled_on:
                 msgs = [(LATENT_KEYS["setshr"], "setShrinking(true) after steps taken with m_shrink = false (edge gradient not maintained): %s" % msgs[0][1])]
         for k, m in msgs: bad.append((ev, k, "%s [event %d: %s %s]" % (m, ev, name, " ".join(args[:6]))))
@@ -735,6 +741,7 @@ def main():
     big = ck.tier == "thorough"
     LATENT["setinit"] = bool(os.environ.get("C08_HIST_SETINIT")) or ck.match_known(LATENT_KEYS["setinit"]) is not None
     LATENT["setshr"] = bool(os.environ.get("C08_HIST_SETSHRINKING")) or ck.match_known(LATENT_KEYS["setshr"]) is not None
+    LATENT["scale"] = bool(os.environ.get("C08_HIST_SCALE_SHRUNK")) or ck.match_known(LATENT_KEYS["scale"]) is not None
     ck.notes["latent_defect_generators"] = dict(LATENT)
     cfgs = []
     if ck.replay:
@@ -750,7 +757,7 @@ def main():
         for k in range(4000 if big else 600): cfgs.append(gen_run(ck.rng, "m%d" % k, big))
         for k in range(200 if big else 20): cfgs.append(gen_run(ck.rng, "x%d" % k, big, extreme=True))
         for k in range(1200 if big else 160): cfgs.append(gen_hist(ck.rng, "h%d" % k, big))
-        for k in range(100 if big else 24): cfgs.append(gen_long(ck.rng, "l%d" % k, big))
+        for k in range(150 if big else 36): cfgs.append(gen_long(ck.rng, "l%d" % k, big))
     res = []
     short = [c for c in cfgs if c["stream"] != "long"]; longs = [c for c in cfgs if c["stream"] == "long"]
     for p in range(0, len(short), 100):
